@@ -44,6 +44,12 @@ def jobs(tier):
             for pre in (["false_region"], ["aborted_region"], ["self_first"]):
                 js.append(dict(name="%s/n4/after-%s" % (e.name, pre[0]), entry=e.name, backend="snarkjs",
                                cfg=dict(n=4, r=2, guard=None, bound=(1 << 64), prelude=pre), tier=tier, weight=2))
+    # block-API programs and lazy selection with comparing branches: the final variables are uniquely determined
+    from . import cat_c09
+    for e in cat_c09.build(8, tier):
+        if "c09out" in e.tags and e.tags & {"if_else", "elif", "elif2", "elif_cmp", "lazy", "lazy_cmp_branches", "nested"}:
+            js.append(dict(name="%s/n4/plain" % e.name, entry=e.name, backend="snarkjs", catalogue="checks.cat_c09",
+                           cfg=dict(n=4, r=2, guard=None, bound=None), tier=tier, weight=4))
     return js
 
 
